@@ -117,9 +117,9 @@ PROPS = {
         unit("c20-logger", "logger", ["logger/c20_test.go", "logger/c20_sched_test.go"], "^TestVerifC20(Fields|Formats|Atoi)", engines=SCHED),
         unit("c20-sched", "logger", ["logger/c20_test.go", "logger/c20_sched_test.go"], "^TestVerifC20Sched", engines=SCHED, race=True, sched_env={"GOMAXPROCS": "1"}, shards={"quick": 1, "thorough": 8},
              rewrite=[{"files": ["logger/logger.go"], "opts": ["-imports", "-stmt"]}]),
-        unit("c20-formatters", "proxy", PROXY_COMMON + ["proxy/c20_test.go"], "^TestVerifC20"),
+        unit("c20-formatters", "proxy", PROXY_COMMON + ["proxy/c20_test.go", "proxy/c20_e2e_test.go"], "^TestVerifC20"),
         unit("c20-uuid", "uuid", ["uuid/c20_test.go"], "^TestVerifC20"),
-    ], layers={"quick": ["c20-fields", "c20-formats", "c20-atoi", "c20-formatters", "c20-uuid", "c20-sched"], "thorough": ["c20-fields", "c20-formats", "c20-atoi", "c20-formatters", "c20-uuid", "c20-sched"]}),
+    ], layers={"quick": ["c20-fields", "c20-formats", "c20-atoi", "c20-formatters", "c20-e2e", "c20-uuid", "c20-sched"], "thorough": ["c20-fields", "c20-formats", "c20-atoi", "c20-formatters", "c20-e2e", "c20-uuid", "c20-sched"]}),
     "C10": dict(level="exploration", engine="benum",
         technique="bounded-exhaustive ClientHello corpus from the real crypto/tls client + every truncation and single-byte substitution, differential against tls.Server on the same bytes",
         level_text="432+ ClientHellos emitted by the real crypto/tls client over the product of version windows, names, ALPN, cipher and curve lists, resumption, plus hand-assembled edge hellos; each is parsed by fabio's 9-byte peek + clientHelloBufferSize + readServerName and by tls.Server (GetConfigForClient) on the same bytes. Every prefix of every hello and every single-byte substitution (12 values) at every offset is parsed: no panic (Go bounds checks make no-panic equal memory safety), buffer bounded by the first record, and names agree whenever the TLS stack still accepts the mutated bytes. clientHelloBufferSize on all 2^16 record lengths.",
@@ -142,11 +142,11 @@ PROPS = {
     "C19": dict(level="exploration", engine="benum",
         technique="bounded-exhaustive configuration product through transport.SetConfig and main.newHTTPProxy, plus a causal timeout scenario matrix",
         level_text="All 3^5 combinations of the five proxy transport options are pushed through the real transport.SetConfig and the three ways fabio builds transports (default, skip-verify, per-route host override) and read back field by field; the response-header timeout is additionally exercised end to end through ServeHTTP against an upstream that holds its headers until the harness releases it.",
-        level_note="Dial timeout and keep-alive live inside a bound method value, so transport/transport.go is rewritten to build a recording vhook.Dialer (same fields, delegates to net.Dialer). The behavioural part uses causal barriers with a 20 s guard; it never asserts a short wall-clock bound.",
+        level_note="Dial timeout and keep-alive live inside a bound method value, so transport/transport.go is rewritten to build a recording vhook.Dialer (same fields, delegates to net.Dialer). The behavioural layer uses causal barriers with a 20 s guard. The history layer has to bound time (the statement is 'within that time'): timeout 3 s, allowed 5.5 s, so only a doubling or worse is reported.",
         units=[
-        unit("c19", ".", MAIN_COMMON + ["main/c19_test.go"], "^TestVerifC19(Config|Behaviour)", engines=["vhook"], rewrite=[{"files": ["transport/transport.go"], "opts": ["-sel", "net.Dialer=vhook.Dialer"]}]),
+        unit("c19", ".", MAIN_COMMON + ["main/c19_test.go"], "^TestVerifC19(Config|Behaviour|History)", engines=["vhook"], rewrite=[{"files": ["transport/transport.go"], "opts": ["-sel", "net.Dialer=vhook.Dialer"]}]),
         unit("c19-main", ".", MAIN_COMMON + ["main/c19_test.go", "main/c19_main_test.go"], "^TestVerifC19Main", engines=["vhook"], rewrite=[{"files": ["transport/transport.go"], "opts": ["-sel", "net.Dialer=vhook.Dialer"]}]),
-    ], layers={"quick": ["c19-config", "c19-behaviour", "c19-main"], "thorough": ["c19-config", "c19-behaviour", "c19-main"]}),
+    ], layers={"quick": ["c19-config", "c19-behaviour", "c19-history", "c19-main"], "thorough": ["c19-config", "c19-behaviour", "c19-history", "c19-main"]}),
     "C15": dict(level="exploration", engine="benum",
         technique="bounded-exhaustive option x value x source enumeration (option list derived from config/load.go at check time) with DeepEqual between sources; pairwise precedence; malformed environment/properties enumeration",
         level_text="Every registered option (derived from the tree at check time, ~150) x two well-formed values x six ways of giving it must load to deeply equal configurations; every ordered pair of the four source classes with two different values must resolve to the higher one; every environment block of <=2 entries of 16 (malformed included) and every properties file of <=2 of 12 lines must load or fail without panicking; every accepted glob.cache.size/strategy/matcher combination is built into the real HTTPProxy and serves requests.",
@@ -160,8 +160,10 @@ PROPS = {
         level_text="The product of service names, addresses, ports, urlprefix forms, every <=2-subset of 16 option strings and 9 extra-tag shapes (quotes, backslashes, non-ASCII, newlines) is turned into route commands by the real routecmd.build next to a well-formed neighbour and fed to the real route.NewTable: the text must be accepted, the neighbour present, an expressible entry denoted exactly, an inexpressible one absent.",
         level_note="Expressibility is decided by an independent predicate (name without white space, finite numeric weight, no double quote/newline in tags or options). Tags containing a comma or surrounding white space, and a redirect option without URL, are left open.",
         units=[
-        unit("c14", "registry/consul", ["consul/c14_test.go"], "^TestVerifC14"),
-    ], layers={"quick": ["c14-registrations"], "thorough": ["c14-registrations"]}),
+        unit("c14", "registry/consul", ["consul/c14_test.go"], "^TestVerifC14Reg"),
+        unit("c14-sched", "registry/consul", ["consul/c14_test.go", "consul/c14_sched_test.go"], "^TestVerifC14Sched", engines=SCHED, race=True, sched_env={"GOMAXPROCS": "1"}, shards={"quick": 2, "thorough": 8},
+             rewrite=[{"files": ["registry/consul/service.go"], "opts": ["-go", "-chan", "-stmt", "-sortrange=m", "-only", "makeConfig,serviceConfig"]}, {"files": ["registry/consul/routecmd.go"], "opts": ["-stmt", "-only", "build"]}]),
+    ], layers={"quick": ["c14-registrations", "c14-sched"], "thorough": ["c14-registrations", "c14-sched"]}),
     "C01": dict(level="model_checking", engine="xstate",
         technique="explicit-state BFS over registry histories through the real consul watchers + watchBackend against a fake Consul HTTP API; bounded-exhaustive check sequences for the health rule",
         level_text="(health rule) every sequence of up to 3 (thorough 4) health checks over 28 check shapes x tagged/untagged x strict/non-strict x 4 accepted-status lists through the real checksWithTagPrefix + passingServices against an independent predicate. (pipeline) breadth-first exploration of registry histories (depth 2 quick, 3 thorough, state de-duplicated) through the real backend, watchers, watchBackend and table installation, with causal quiescence detection; every state compares the active table with the reference.",
@@ -189,11 +191,12 @@ PROPS = {
         unit("c18-core", "proxy/tcp", TCP_COMMON + ["tcp/c10_test.go", "tcp/c09_test.go", "tcp/c18_test.go"], "^TestVerifC18", engines=SCHED + ["vhook", "vnet"], sched_env={"GOMAXPROCS": "1"}, shards={"quick": 4, "thorough": 12},
              rewrite=[{"files": ["proxy/tcp/server.go"], "opts": ["-imports", "-go", "-chan"]}, {"files": ["proxy/tcp/tcp_proxy.go", "proxy/tcp/sni_proxy.go", "proxy/tcp/tcp_dynamic_proxy.go"], "opts": ["-go", "-chan", "-sel", "net.DialTimeout=vhook.DialTimeout"]}]),
         unit("c18-servers", "proxy", PROXY_COMMON + ["proxy/c18_test.go"], "^TestVerifC18"),
-    ], layers={"quick": ["c18-core", "c18-servers"], "thorough": ["c18-core", "c18-servers"]}),
+        unit("c18-signals", ".", MAIN_COMMON + ["main/c18_sig_test.go"], "^TestVerifC18Signals"),
+    ], layers={"quick": ["c18-core", "c18-servers", "c18-signals"], "thorough": ["c18-core", "c18-servers", "c18-signals"]}),
     "C16": dict(level="model_checking", engine="xstate",
         technique="bounded-exhaustive call matrix through the real grpc stack with fabio's options + explicit enumeration of table/pool histories with the pool's clean-up timer owned by the harness",
         level_text="(calls) the product call kind x request/reply message sequences (<=3 payloads of empty/1B/70kB) x metadata shapes (custom, binary, dsthost matching/not/twice) x backend outcomes x headers/trailers is executed through grpc.Server built from main.newGrpcProxy against instrumented TestService backends and compared for identity; no-route gives NotFound without contacting a backend. (histories) every history up to depth 3 (thorough 4) of {call A, call B, remove/add B, clean-up pass, restart B}: reuse of one connection per backend, drop after leaving the table, success after re-adding.",
-        level_note="grpc-go's own goroutines are not under a scheduler: the property does not quantify over schedules. Asynchronous effects (connection closed at the backend) are awaited with a 10 s guard. TLS (grpcs) backends are not exercised.",
+        level_note="grpc-go's own goroutines are not under a scheduler: the property does not quantify over schedules. Asynchronous effects (connection closed at the backend) are awaited with a 10 s guard. A TLS (grpcs) backend appears only in the history layer (redeployment of B with the other transport).",
         units=[
         unit("c16", ".", MAIN_COMMON + ["main/c16_test.go"], "^TestVerifC16", engines=["vhook"], rewrite=[{"files": ["proxy/grpc_handler.go"], "opts": ["-sel", "time.Sleep=vhook.ScaledSleep", "-sel", "time.NewTicker=vhook.NewTicker", "-sel", "time.Tick=vhook.Tick", "-sel", "time.After=vhook.After", "-sel", "time.NewTimer=vhook.NewTimer", "-sel", "time.AfterFunc=vhook.AfterFunc"]}]),
         unit("c16-pool", "proxy", PROXY_COMMON + ["proxy/c16_pool_test.go"], "^TestVerifC16Pool", engines=SCHED + ["vhook"], sched_env={"GOMAXPROCS": "1"}, shards={"quick": 1, "thorough": 8},
@@ -204,7 +207,7 @@ PROPS = {
 LAYER_UNIT = {"c06-sched": "c06", "c03-select": "c03", "c03-lookuphost": "c03", "c04-add": "c04", "c04-weightcmd": "c04", "c05-commands": "c05",
               "c07-request": "c07", "c07-response": "c07", "c07-wire": "c07", "c07-history": "c07", "c08-headers": "c08", "c08-websocket": "c08", "c09-tunnels": "c09", "c09-websocket": "c09-ws",
               "c10-sni": "c10", "c12-rules": "c12-rules", "c13-inputs": "c13", "c13-sched": "c13", "c14-registrations": "c14", "c15-sources": "c15-config",
-              "c15-robust": "c15-config", "c16-calls": "c16", "c16-history": "c16", "c19-config": "c19", "c19-behaviour": "c19", "c20-fields": "c20-logger",
+              "c15-robust": "c15-config", "c16-calls": "c16", "c16-history": "c16", "c19-config": "c19", "c19-behaviour": "c19", "c19-history": "c19", "c20-fields": "c20-logger", "c20-e2e": "c20-formatters",
               "c20-formats": "c20-logger", "c20-atoi": "c20-logger", "c01-health": "c01-health"}
 
 def layer_unit(pid, layer):
